@@ -147,6 +147,11 @@ type Enc struct {
 	dryCache        []dryCached
 	recGhost        map[string]bool
 	axiomLines      []axiomLine
+	bseqSeen        map[string]bool
+	writeRef        string          // reference through which the heap write in progress goes ("" = unknown)
+	dryNonLocal     map[string]bool // result of the last loop dry run
+	writeNonLocal   map[string]bool // heap keys written through a reference that was not allocated by this function
+	qscope          [][2]string // quantified variables of the specification expression being evaluated: (symbol, sort)
 }
 
 func newEnc(P *Program, db *SpecDB, ti *TypeInfo) *Enc {
@@ -163,7 +168,25 @@ func (e *Enc) assert(t string) {
 	if t == "true" {
 		return
 	}
+	// facts produced while a specification quantifier is being evaluated (typing facts of loaded values, instance
+	// facts of byte windows, ensures of pure functions) may mention its bound variables: they hold for every value of
+	// them, so they are asserted universally
+	if bs := e.boundIn(t); len(bs) > 0 {
+		e.emit("(assert (forall (" + strings.Join(bs, " ") + ") " + t + "))")
+		return
+	}
 	e.emit("(assert " + t + ")")
+}
+
+// boundIn: binders (as "(name sort)") of the quantified variables in scope that occur in t.
+func (e *Enc) boundIn(t string) []string {
+	var out []string
+	for _, b := range e.qscope {
+		if strings.Contains(t, b[0]) {
+			out = append(out, "("+b[0]+" "+b[1]+")")
+		}
+	}
+	return out
 }
 
 // assertTyping: side facts (typing of loaded values). Produced while a quantifier body is being evaluated they may mention
@@ -234,7 +257,7 @@ func (e *Enc) fresh(hint, sort string) string {
 
 // define introduces a named constant equal to term (keeps formulas small).
 func (e *Enc) define(hint, sort, term string) string {
-	if len(term) < 40 {
+	if len(term) < 40 || len(e.boundIn(term)) > 0 {
 		return term
 	}
 	n := e.fresh(hint, sort)
@@ -305,9 +328,31 @@ func (e *Enc) havocUnknown(st *State) {
 	e.writeLog["*"] = true
 }
 
+// localRef: the term denotes an object allocated by the function being encoded (allocRef names them ref!...).
+func localRef(t string) bool { return strings.HasPrefix(t, "|ref!") }
+
+// noteWrite records whether the write in progress may touch an object that existed before the function started.
+func (e *Enc) noteWrite(key string) {
+	if !localRef(e.writeRef) {
+		if e.writeNonLocal == nil {
+			e.writeNonLocal = map[string]bool{}
+		}
+		e.writeNonLocal[key] = true
+	}
+}
+
+// withRef runs f while heap writes are attributed to the object ref.
+func (e *Enc) withRef(ref string, f func()) {
+	saved := e.writeRef
+	e.writeRef = ref
+	f()
+	e.writeRef = saved
+}
+
 func (e *Enc) heapSet(st *State, key, sort, term string) {
 	e.heapSort[key] = sort
 	e.writeLog[key] = true
+	e.noteWrite(key)
 	if len(term) > 60 {
 		n := e.fresh(key, sort)
 		e.assert(eq(n, term))
@@ -322,6 +367,7 @@ func (e *Enc) heapHavoc(st *State, key string) {
 		return
 	}
 	e.writeLog[key] = true
+	e.noteWrite(key)
 	st.heap[key] = e.fresh(key, sort)
 }
 
@@ -411,7 +457,7 @@ func (e *Enc) storeLoc(st *State, l *Loc, v *Val) {
 		} else {
 			t = "(store " + arr + " " + l.Ref + " " + v.L[i].T + ")"
 		}
-		e.heapSet(st, key, sort, t)
+		e.withRef(l.Ref, func() { e.heapSet(st, key, sort, t) })
 	}
 }
 
@@ -816,7 +862,7 @@ func (e *Enc) mergeStates(hint string, sts []*State, conds []string) *State {
 }
 
 func (e *Enc) nameBool(hint, term string) string {
-	if len(term) < 48 {
+	if len(term) < 48 || len(e.boundIn(term)) > 0 {
 		return term
 	}
 	n := e.fresh(hint, "Bool")
